@@ -272,6 +272,8 @@ def present(prob, placement, grad_names=(), spy=True):
             order.insert(1, ("n", "label"))
             order.append(("n", None))
             order.append(("u", "unused_tensor"))
+            order.insert(0, ("i", "int_tensor"))       # non-differentiable tensor parameters: integer and bool dtype
+            order.append(("i", "bool_tensor"))
         if placement == "explicit_dup":
             order.append(("t2", names[0]))      # the same tensor object once more: the function uses the mean of the two slots
 
@@ -294,6 +296,8 @@ def present(prob, placement, grad_names=(), spy=True):
                 params.append(ex[k])
             elif kind == "n":
                 params.append(k)
+            elif kind == "i":
+                params.append(torch.arange(3) if k == "int_tensor" else torch.tensor([True, False]))
             else:
                 params.append(torch.ones(2, dtype=prob.theta[names[0]].dtype))
         P.fcn, P.params = fcn, params
